@@ -284,7 +284,7 @@ wait:
 				evs := readMarker(marker)
 				if len(evs) > nBefore { // P1 executes steps now
 					statusAsked = true
-					if _, err := sock.NewClient("/tmp/" + sockName(loc)).Request("GET", "/status"); err == nil {
+					if _, err := sock.NewClient("/tmp/"+sockName(loc)).Request("GET", "/status"); err == nil {
 						statusAnswered = true
 					}
 					break
@@ -404,7 +404,7 @@ func init() {
 		Passes: func(tier string) []core.Pass {
 			return []core.Pass{{Name: "main", Mode: "pause", Shards: 16, Timeout: 60 * time.Minute}}
 		},
-		Exhaustive: func(tier string) bool { return true },
-		Rule: "Real `blackdagger start` (built from /repo) of a 2-step DAG with an exit handler; its watched system calls under the data directory, the log directory and its unix socket are numbered by the ptrace supervisor (about 50: log file, probe connect, history open/write, unlink+bind+listen of the socket, per-step log and status writes, socket teardown, compaction) and EVERY position k is used once: the first start is held before call k, a second `blackdagger start` (thorough: also `retry --req` of an earlier run, 1- and 3-step DAGs, release delays 50/300/900 ms) is launched while it is held, the first is released 300 ms after the second's first step began or after the second ended; plus the position after the first run has ended. Steps are child processes logging BEGIN/END with the run's request id and a monotonic clock (1.2 s each). Oracle: the history acquire(run)=first BEGIN / release(run)=last END is checked against a mutex model with porcupine (Illegal = two runs executed steps at the same time); a second start that exits non-zero must have executed nothing and recorded nothing, and the first run must then exit 0, complete all its steps and handler, and answer GET /status while its steps run; every run that executed steps is readable from the history. Two runs that do not overlap (the first was held before it had done anything) are legal. exhaustive=true refers to the enumeration of the first start's system-call positions. Non-trivial/distinct = (variant, k).",
+		Exhaustive:  func(tier string) bool { return true },
+		Rule:        "Real `blackdagger start` (built from /repo) of a 2-step DAG with an exit handler; its watched system calls under the data directory, the log directory and its unix socket are numbered by the ptrace supervisor (about 50: log file, probe connect, history open/write, unlink+bind+listen of the socket, per-step log and status writes, socket teardown, compaction) and EVERY position k is used once: the first start is held before call k, a second `blackdagger start` (thorough: also `retry --req` of an earlier run, 1- and 3-step DAGs, release delays 50/300/900 ms) is launched while it is held, the first is released 300 ms after the second's first step began or after the second ended; plus the position after the first run has ended. Steps are child processes logging BEGIN/END with the run's request id and a monotonic clock (1.2 s each). Oracle: the history acquire(run)=first BEGIN / release(run)=last END is checked against a mutex model with porcupine (Illegal = two runs executed steps at the same time); a second start that exits non-zero must have executed nothing and recorded nothing, and the first run must then exit 0, complete all its steps and handler, and answer GET /status while its steps run; every run that executed steps is readable from the history. Two runs that do not overlap (the first was held before it had done anything) are legal. exhaustive=true refers to the enumeration of the first start's system-call positions. Non-trivial/distinct = (variant, k).",
 		Assumptions: []string{"while the supervisor holds the first process all its threads are stopped at their next system call (like a stopped process); its status endpoint is not asked then"}})
 }
